@@ -233,11 +233,13 @@ PhDirect ==
     /\ Advance(pN)
     /\ UNCHANGED <<gens, pN>> /\ UNCHANGED arVars
 
-PhFirst(acc) ==
+\* req is a parameter so that the trace specification can bind the logged request
+PhFirstReq(req, acc) ==
     /\ ppc = "first" /\ gens[gi] > 2
-    /\ acc \in 0..pN
-    /\ pgen' = acc /\ plen' = acc /\ ptot' = pN /\ ppc' = "loop"
+    /\ acc \in 0..req
+    /\ pgen' = acc /\ plen' = acc /\ ptot' = req /\ ppc' = "loop"
     /\ UNCHANGED <<gens, gi, pN, lens>> /\ UNCHANGED arVars
+PhFirst(acc) == PhFirstReq(pN, acc)          \* generate_mass(n_iter)
 
 \* req is a parameter so that the trace specification can bind the logged request
 PhRefillReq(req, acc) ==
@@ -257,7 +259,7 @@ PhFirstStep == \E acc \in 0..pN : PhFirst(acc)
 PhRefillStep == \E acc \in 0..PhCap : PhRefill(acc)
 NextPh == PhDirect \/ PhFirstStep \/ PhRefillStep \/ PhTrunc
 
-PhCount == ppc = "loop" => (pgen = plen /\ ptot >= pN /\ (pgen >= pN \/ ptot - pgen >= 1))
+PhCount == ppc = "loop" => (pgen = plen /\ ptot >= pgen)
 \* every generator of the chain returns exactly N
 PhLenN == \A i \in DOMAIN lens : lens[i] = pN
 PhDone == ppc = "done" => Len(lens) = Len(gens)
